@@ -39,7 +39,7 @@ ASSUMPTIONS = [
 
 def params(tier):
     if tier == 'quick':
-        return {'examples': 3000, 'wall': 80, 'case_timeout': 40}
+        return {'examples': 3000, 'wall': 120, 'case_timeout': 40}
 
     return {'examples': 25000, 'wall': 600, 'case_timeout': 60}
 
@@ -86,6 +86,9 @@ def enumerate_cases(tier, shard, nshards, seed):
 
         for how in (('cutput',) if s2['op'] == 'cut' else ('copy', 'own_src')):
             yield {'kind': 'history', 'src': case['src'], 'tsel': s1['tsel'], 'text': s1['text'], 'asel': s2['tsel'], 'how': how, 'enumerated': True}
+
+
+DANGLING_CONT = re.compile(r'\\\n[ \t]*(\n|$)')
 
 
 def parse_or_skip(src):
@@ -196,6 +199,12 @@ def execute(case, ctx):
 
         for tsel, start, stop, mode in case['sels']:
             cur = root.src
+
+            if DANGLING_CONT.search(cur):
+                ctx.count('state_with_dangling_continuation(C01-dangling-continuation family, sequence stops)')  # a backslash continuation onto an empty line joins whatever is put after it
+
+                return
+
             cur_S = c07.norm_dump(parse_or_skip(cur))
             nodes = em.node_targets(root.a)
             conts = em.container_targets(root.a)
